@@ -1465,9 +1465,9 @@ func main() {
 		},
 		Cases: func(tier string) int {
 			if tier == "thorough" {
-				return 12000
+				return 2400
 			}
-			return 480
+			return 320
 		},
 		Run:         run,
 		CaseTimeout: 15 * time.Minute,
